@@ -425,7 +425,10 @@ class Inspector:
         self.extensions.call("on_function_node", node=node, agent=self)
 
         try:
-            signature = getsignature(node.obj)
+            # `getattr(cls, name)` returns class methods *bound*: their signature lacks the first
+            # parameter (`cls`) that the source declares. Read the underlying function instead.
+            function = getattr(node.obj, "__func__", node.obj) if node.is_classmethod else node.obj
+            signature = getsignature(function)
         except Exception:  # noqa: BLE001
             # So many exceptions can be raised here:
             # AttributeError, NameError, RuntimeError, ValueError, TokenError, TypeError...
